@@ -106,6 +106,9 @@ pub fn curated() -> Vec<(&'static str, Spec, bool)> {
     add("la_alt_merge", true, vec![r(r";|end(?-u:\b)").prio(10), r("[;,.]"), r("[a-z0-9]+").prio(1)]);
     add("la_alt_merge2", true, vec![r("a|b$").prio(9), r("[ab]"), r("[0-9]")]);
     add("la_alt_merge3", true, vec![r("x|y(?m:$)").prio(9), r("[xy]"), t("\n")]);
+    add("la_alt_merge_mb", true, vec![r("€|fin$").prio(9), r("[a-zé]+"), t(" ")]);
+    add("la_alt_merge_mb2", true, vec![r(r"é|end(?-u:\b)").prio(10), r("[é,.]"), r("[a-z0-9]+").prio(1)]);
+    add("la_alt_merge_mb3", true, vec![r("😀|ok(?m:$)").prio(10), r("[😀-😏]|ok"), t("\n")]);
     add("la_alt_merge_skip", true, vec![s(r";|#(?-u:\b)").prio(10), r("[;#]"), r("[a-z]+")]);
     // one leaf completing unconditionally on one branch and through a look-ahead on another, both
     // ending in the same match state
